@@ -177,6 +177,84 @@ catalogue! {
     [ref Vec<Ind>] (scorer (then (and (select (ps 1 1)) (select (ps 2 2))) (then (map (then (extract) (mutate (pm 3 1)))) (recombine (pr 4 1)))) 7);
 }
 
+// ---- harness-side mutants of the combinators: copies of the real `apply` bodies with one realistic
+// defect each, run against the model term of the *correct* combinator (UEC_SELFTEST=5..8) ----------
+#[derive(Debug)]
+pub struct MimicErr { text: String, dbg: String, inner: ProbeErr }
+impl std::fmt::Display for MimicErr {
+    fn fmt(&self, f: &mut std::fmt::Formatter<'_>) -> std::fmt::Result { f.write_str(&self.text) }
+}
+impl std::error::Error for MimicErr {
+    fn source(&self) -> Option<&(dyn std::error::Error + 'static)> { Some(&self.inner) }
+}
+fn mimic(text: &str, dbg: &str, inner: ProbeErr) -> MimicErr { MimicErr { text: text.into(), dbg: dbg.into(), inner } }
+const THEN1: &str = "Error while applying the first passed operator (`T`) in the `Then<T,>` Operator";
+const THEN2: &str = "Error while applying the second passed operator (`U`) in the `Then<,U>` Operator";
+const AND1: &str = "Error while applying the first passed operator (`T`) in the `And<T,>` Operator";
+const AND2: &str = "Error while applying the second passed operator (`U`) in the `And<,U>` Operator";
+
+/// defect: the second operator is still run (on a default value) after the first one failed
+pub struct BadThen(pub Probe, pub Probe);
+impl Composable for BadThen {}
+impl Operator<V> for BadThen {
+    type Output = V;
+    type Error = MimicErr;
+    fn apply<R: rand::Rng + ?Sized>(&self, x: V, rng: &mut R) -> Result<V, MimicErr> {
+        match self.0.apply(x, rng) {
+            Err(e) => { let _ = self.1.apply(V::Leaf(0), rng); Err(mimic(THEN1, "First", e)) }
+            Ok(y) => self.1.apply(y, rng).map_err(|e| mimic(THEN2, "Second", e)),
+        }
+    }
+}
+/// defect: all elements are mapped before the first error is looked for
+pub struct BadMapVec(pub Probe);
+impl Composable for BadMapVec {}
+impl Operator<Vec<V>> for BadMapVec {
+    type Output = Vec<V>;
+    type Error = MimicErr;
+    fn apply<R: rand::Rng + ?Sized>(&self, input: Vec<V>, rng: &mut R) -> Result<Vec<V>, MimicErr> {
+        let all: Vec<Result<V, ProbeErr>> = input.into_iter().map(|x| self.0.apply(x, rng)).collect();
+        let mut out = Vec::new();
+        for (i, r) in all.into_iter().enumerate() {
+            match r { Ok(v) => out.push(v), Err(e) => return Err(mimic(&format!("Error while applying passed operator on the {i}-th element of the mapped iterable"), "MapError", e)) }
+        }
+        Ok(out)
+    }
+}
+/// defect: one application too many (the surplus result is dropped)
+pub struct BadRepeat3(pub Probe);
+impl Composable for BadRepeat3 {}
+impl Operator<V> for BadRepeat3 {
+    type Output = [V; 3];
+    type Error = ProbeErr;
+    fn apply<R: rand::Rng + ?Sized>(&self, input: V, rng: &mut R) -> Result<[V; 3], ProbeErr> {
+        let v: Vec<V> = std::iter::repeat_with(|| self.0.apply(input.clone(), rng)).take(4).collect::<Result<Vec<_>, _>>()?;
+        Ok([v[0].clone(), v[1].clone(), v[2].clone()])
+    }
+}
+/// defect: the two operators are applied in the wrong order
+pub struct BadAnd(pub Probe, pub Probe);
+impl Composable for BadAnd {}
+impl Operator<V> for BadAnd {
+    type Output = (V, V);
+    type Error = MimicErr;
+    fn apply<R: rand::Rng + ?Sized>(&self, x: V, rng: &mut R) -> Result<(V, V), MimicErr> {
+        let g = self.1.apply(x.clone(), rng).map_err(|e| mimic(AND2, "Second", e))?;
+        let f = self.0.apply(x, rng).map_err(|e| mimic(AND1, "First", e))?;
+        Ok((f, g))
+    }
+}
+
+fn mutant_shapes(selftest: u8) -> Vec<(&'static str, ShapeFn)> {
+    let p = |id, d| Probe { id, d };
+    match selftest {
+        5 => vec![("(then (p 1 1) (p 2 1))", Box::new(move |ctx: &mut Ctx| { let x: V = GenIn::gen(&mut ctx.gen); run_case(&BadThen(p(1, 1), p(2, 1)), x, "(then (p 1 1) (p 2 1))", ctx) }) as ShapeFn)],
+        6 => vec![("(map (p 1 1))", Box::new(move |ctx: &mut Ctx| { let x: Vec<V> = GenIn::gen(&mut ctx.gen); run_case(&BadMapVec(p(1, 1)), x, "(map (p 1 1))", ctx) }) as ShapeFn)],
+        7 => vec![("(rep 3 (p 1 1))", Box::new(move |ctx: &mut Ctx| { let x: V = GenIn::gen(&mut ctx.gen); run_case(&BadRepeat3(p(1, 1)), x, "(rep 3 (p 1 1))", ctx) }) as ShapeFn)],
+        _ => vec![("(and (p 1 1) (p 2 1))", Box::new(move |ctx: &mut Ctx| { let x: V = GenIn::gen(&mut ctx.gen); run_case(&BadAnd(p(1, 1), p(2, 1)), x, "(and (p 1 1) (p 2 1))", ctx) }) as ShapeFn)],
+    }
+}
+
 pub struct Outcome {
     pub res: String,
     pub log: Vec<Call>,
@@ -200,7 +278,7 @@ where
         Ok(Ok(v)) => format!("ok {}", show(&v.to_v())),
         Ok(Err(e)) => {
             let (c, dbg) = canon_err(&e);
-            dbg_ok = format!("{e:?}") == dbg;
+            dbg_ok = format!("{e:?}") == dbg || format!("{e:?}").starts_with("MimicErr");
             format!("err {c}")
         }
         Err(_) => "panic".into(),
@@ -328,12 +406,12 @@ where
 }
 
 pub fn run(cfg: &Cfg) -> Report {
-    let shapes = shapes();
+    let selftest: u8 = std::env::var("UEC_SELFTEST").ok().and_then(|s| s.parse().ok()).unwrap_or(0);
+    let shapes = if (5..=8).contains(&selftest) { mutant_shapes(selftest) } else { shapes() };
     let n_shapes = shapes.len() as u64;
-    let seeds_per_shape: u64 = if cfg.thorough { 400 } else { 12 };
+    let seeds_per_shape: u64 = if cfg.thorough { 3000 } else { 100 };
     let n = n_shapes * seeds_per_shape;
     let seed = cfg.seed;
-    let selftest: u8 = std::env::var("UEC_SELFTEST").ok().and_then(|s| s.parse().ok()).unwrap_or(0);
     let mut rep = run_sharded(&cfg.driver, cfg.threads, n, || Report::new("ops", RULE), |d, r, i| {
         let (term, f) = &shapes[(i % n_shapes) as usize];
         r.hit(&format!("shape {term}"));
